@@ -127,7 +127,7 @@ def rw_underscore_params(sig):
 REWRITES_DOC = {
     'R2': '`*X.get_unchecked(i)` -> `X[i]`: same value when i is in bounds; the bounds obligation IS the safety obligation',
     'R3': 'parameter pattern `_: T` -> `_pN: T` (Verus rejects `_` patterns)',
-    'R7': 'generic container parameter `T: Index<usize, Output = u64>` of bits::read_int/write_int instantiated at Vec<u64>',
+    'R7': 'generic parameter instantiated at the one type the unit models: `T: Index<usize, Output = u64>` of bits::read_int/write_int at Vec<u64>; `P: AsRef<Path>` at the model path type',
     'R5': '`for p in E { B }` -> `let mut __it = E; loop { match __it.next() { Some(p) => { B } None => break } }` (reference desugaring)',
     'R8': 'struct fields widened to pub inside the unit',
     'R1': 'doc comments / #[inline] / derives dropped',
@@ -279,6 +279,7 @@ def weave_fn(src, container, name, nth, opts, subs, mode, sig_only=False):
                 po = sig0.index('(', mm.end())
                 sig1 = sig0[:mm.start()] + sig0[po:]
             sig1 = re.sub(r'(&\s*(?:mut\s+)?)' + re.escape(tv) + r'\b', lambda m_: m_.group(1) + ty.strip(), sig1)
+            sig1 = re.sub(r'(:\s*)' + re.escape(tv) + r'(\s*[,)])', lambda m_: m_.group(1) + ty.strip() + m_.group(2), sig1)
             if sig1 == sig0:
                 raise Undecided('R7: nothing to instantiate in %s::%s' % (container, name))
             text = sig1 + text[sig_end:]
